@@ -68,6 +68,9 @@ pub trait Part {
     }
     /// marks the part as an exhaustive enumeration (the strategy is ignored; `directed` enumerates)
     const EXHAUSTIVE: bool = false;
+    /// false for free-running (uncontrolled OS thread) parts: a failing case need not reproduce,
+    /// so it is reported as observed (with its recorded history) instead of being shrunk
+    const DETERMINISTIC: bool = true;
 }
 
 #[derive(Serialize, Deserialize, Default, Debug)]
@@ -276,11 +279,20 @@ pub fn run_shard<P: Part>(tier: Tier, seed: u64, shard: u32, of: u32, cases_over
         let strat = P::strategy(tier);
         let acc_cell = std::cell::RefCell::new(&mut acc);
         let last_v: std::cell::RefCell<Option<Violation>> = std::cell::RefCell::new(None);
+        let observed: std::cell::RefCell<Option<(Violation, P::Case)>> = std::cell::RefCell::new(None);
         let res = runner.run(&strat, |case| {
             let mut a = acc_cell.borrow_mut();
             let count = !a.failed;
+            if !P::DETERMINISTIC && observed.borrow().is_some() {
+                return Ok(());
+            }
             match eval_one::<P>(&case, &mut a, &known, count) {
                 Ok(()) => Ok(()),
+                Err(v) if !P::DETERMINISTIC => {
+                    a.failed = true;
+                    *observed.borrow_mut() = Some((v, case.clone()));
+                    Ok(())
+                }
                 Err(v) => {
                     a.failed = true;
                     let msg = format!("{}: {}", v.sig, v.msg);
@@ -289,6 +301,9 @@ pub fn run_shard<P: Part>(tier: Tier, seed: u64, shard: u32, of: u32, cases_over
                 }
             }
         });
+        if let Some(ov) = observed.borrow_mut().take() {
+            violation = Some(ov);
+        }
         match res {
             Ok(()) => {}
             Err(TestError::Fail(_reason, minimal)) => {
